@@ -1487,7 +1487,38 @@ pub fn replay(j: &J) -> Result<J, String> {
             }
         }
     }
-    let render = |run: &DecRun| render(run, &calls);
+    // what the queries answer in the state each call starts from (C07 / C19 violations are about
+    // these answers, not about the calls)
+    let queries = |calls: &[Call]| -> J {
+        let mut dec = new_decoder(&enc, bom);
+        let mut v = vec![];
+        for c in calls {
+            let n = c.src.len();
+            let q = std::panic::catch_unwind(std::panic::AssertUnwindSafe(|| {
+                format!(
+                    "max_utf8_buffer_length({n})={:?} max_utf8_buffer_length_without_replacement({n})={:?} max_utf16_buffer_length({n})={:?} latin1_byte_compatible_up_to(src)={:?}",
+                    dec.max_utf8_buffer_length(n),
+                    dec.max_utf8_buffer_length_without_replacement(n),
+                    dec.max_utf16_buffer_length(n),
+                    dec.latin1_byte_compatible_up_to(&c.src)
+                )
+            }))
+            .unwrap_or_else(|_| "panic".into());
+            v.push(J::s(&q));
+            let sk = c.sink(sink);
+            let fill = if sk == Sink::Str { c.fill & 0x7F } else { c.fill };
+            let d = Dst { cap: c.cap, fill, align: c.dalign as usize, prior: None };
+            if with_aligned_src(&c.src, c.salign as usize, |s| call_decoder(&mut dec, sk, c.repl(repl), s, c.last, &d)).is_err() {
+                break;
+            }
+        }
+        J::Arr(v)
+    };
+    let render = |run: &DecRun| {
+        let mut r = render(run, &calls);
+        r.put("queries_before_each_call", queries(&calls));
+        r
+    };
     let a = run_decoder_calls(&enc, bom, sink, repl, &calls)?;
     let b = run_decoder_calls(&enc, bom, sink, repl, &calls)?;
     let (ja, jb) = (render(&a), render(&b));
